@@ -367,7 +367,11 @@ func (s *subsetter) SubsetGpos(old *gtab.Info) *gtab.Info {
 					if _, ok := s.newGid[pair.Right]; !ok {
 						continue
 					}
-					sNew[pair] = adj
+					newPair := glyph.Pair{
+						Left:  s.newGid[pair.Left],
+						Right: s.newGid[pair.Right],
+					}
+					sNew[newPair] = adj
 				}
 				tNew.Subtables[j] = sNew
 			case *gtab.Gpos2_2:
